@@ -69,6 +69,7 @@ func (eng) Rule(mode string) string {
 		"timestamps from a small domain (so identical registrations repeat) in units of 1 ns / 1 s / 2^40 ns plus 0 and MaxInt64, " +
 		"histories of 8-70 operations: SetTimer (fresh, repeated, at/below the watermark), AdvanceWatermark by one runner or by all runners " +
 		"(monotone, sometimes regressing, sometimes an unknown sender), SetTimer between two yields of an advance, " +
+		"consumers that break out of the range loop after k = 0..3 items, " +
 		"Restore over the same DB or over a DB re-opened from a checkpoint, and a final advance of every upstream to MaxInt64 (pending set). " +
 		"Non-trivial: some group's pending timers exceeded its cache budget at some moment, at least one restore, and at least two advances yielded timers; distinct by hash of the case."
 }
@@ -76,7 +77,8 @@ func (eng) Rule(mode string) string {
 // ---------- JSON forms ----------
 
 type opJ struct {
-	Op     string  `json:"op"`              // set | adv | restore
+	Op     string  `json:"op"`              // set | adv | advp | restore | barrier | crash
+	K      int     `json:"k,omitempty"`     // advp: the consumer breaks out of the range loop in the body of the k-th item (0: never iterates)
 	Key    []byte  `json:"key,omitempty"`   // set
 	T      int64   `json:"t,omitempty"`     // set: UnixNano; adv: watermark UnixNano
 	More   []int64 `json:"more,omitempty"`  // set: further timestamps registered for the same key by the same handler result
@@ -157,16 +159,35 @@ func srName(i int) string { return fmt.Sprintf("sr%d", i) }
 // ---------- generation ----------
 
 type genState struct {
-	r     *hx.Rand
-	ks    *partitioning.KeySpace
-	rng   partitioning.KeyGroupRange
-	keys  [][]byte
-	unit  int64
-	dom   int
-	srids []int
-	known map[int]bool // upstream map entries since the last restore
-	wmOf  map[int]int64
-	ops   []json.RawMessage
+	r        *hx.Rand
+	ks       *partitioning.KeySpace
+	rng      partitioning.KeyGroupRange
+	keys     [][]byte
+	unit     int64
+	dom      int
+	distinct bool // two different keys never share a timestamp
+	srids    []int
+	known    map[int]bool // upstream map entries since the last restore
+	wmOf     map[int]int64
+	ops      []json.RawMessage
+}
+
+// with [distinct] two different keys never share a timestamp (no heap-layout dependent ties: the model comparison
+// stays exact also when a consumer stops part-way)
+func (g *genState) fix(key []byte, t int64) int64 {
+	if !g.distinct {
+		return t
+	}
+	idx := 0
+	for i, k := range g.keys {
+		if string(k) == string(key) {
+			idx = i
+		}
+	}
+	if t > math.MaxInt64-64 {
+		t = math.MaxInt64 - 64
+	}
+	return t - t%16 + int64(idx)
 }
 
 func (g *genState) ts() int64 {
@@ -203,7 +224,7 @@ func (g *genState) genSet() opJ {
 			}
 		}
 	}
-	return opJ{Op: "set", Key: k, T: t}
+	return opJ{Op: "set", Key: k, T: g.fix(k, t)}
 }
 
 func (g *genState) emit(o opJ) { g.ops = append(g.ops, hx.Op(o)) }
@@ -240,6 +261,10 @@ func (g *genState) genAdv(all bool) {
 				s2 := g.genSet()
 				o.During = append(o.During, durJ{After: 1 + g.r.Intn(3), Key: s2.Key, T: s2.T})
 			}
+		}
+		if g.r.Chance(1, 3) { // the consumer stops part-way
+			o.Op = "advp"
+			o.K = g.r.Intn(4)
 		}
 		g.known[s] = true
 		g.wmOf[s] = wm
@@ -316,7 +341,7 @@ func genCase(r *hx.Rand, idx int, tier string) *hx.Case {
 		srids[i] = i
 	}
 	g := &genState{r: r, ks: ks, rng: rng, keys: keys, srids: srids,
-		unit: hx.Pick(r, []int64{1, 1, 1_000_000_000, 1 << 40}), dom: hx.Pick(r, []int{6, 12, 30, 60}),
+		unit: hx.Pick(r, []int64{1, 1, 1_000_000_000, 1 << 40}), dom: hx.Pick(r, []int{6, 12, 30, 60}), distinct: r.Chance(1, 2),
 		known: map[int]bool{}, wmOf: map[int]int64{}}
 	for _, s := range srids {
 		g.known[s] = true
@@ -499,11 +524,18 @@ func (eng) execute(mode string, c *hx.Case) (*hx.Result, error) {
 				setTimer(o.Key, t)
 				coqOps = append(coqOps, fmt.Sprintf("SetTimer %s %s", hx.CoqBytes(o.Key), hx.CoqZ(t)))
 			}
-		case "adv":
+		case "adv", "advp":
 			var out []firedJ
 			var dur []string
 			n := 0
-			for k, ts := range reg.AdvanceWatermark(srName(o.Sr), &workerpb.Watermark{Timestamp: timestamppb.New(time.Unix(0, o.T))}) {
+			seq := reg.AdvanceWatermark(srName(o.Sr), &workerpb.Watermark{Timestamp: timestamppb.New(time.Unix(0, o.T))})
+			if o.Op == "advp" && o.K <= 0 {
+				seq = func(yield func([]byte, time.Time) bool) {} // the returned iterator is never run
+			}
+			for k, ts := range seq {
+				if o.Op == "advp" && n >= o.K {
+					panic(fmt.Sprintf("op %d: the iterator yielded again after the consumer stopped", i))
+				}
 				if n > nSets+4 {
 					panic(fmt.Sprintf("op %d: AdvanceWatermark yielded %d timers although only %d were ever set", i, n+1, nSets))
 				}
@@ -516,6 +548,10 @@ func (eng) execute(mode string, c *hx.Case) (*hx.Result, error) {
 						tags["set-during-advance"] = true
 					}
 				}
+				if o.Op == "advp" && n == o.K {
+					tags["consumer-stopped"] = true
+					break
+				}
 			}
 			for _, d := range o.During {
 				if rng.IncludesKeyGroup(ks.KeyGroup(d.Key)) {
@@ -526,7 +562,9 @@ func (eng) execute(mode string, c *hx.Case) (*hx.Result, error) {
 				nYielding++
 			}
 			observed = append(observed, out)
-			if len(dur) == 0 {
+			if o.Op == "advp" {
+				coqOps = append(coqOps, fmt.Sprintf("AdvancePartial %s %s %s %s", hx.CoqN(uint64(o.Sr)), hx.CoqZ(o.T), hx.CoqNat(max(o.K, 0)), hx.CoqList(dur, "nat * bytes * Z")))
+			} else if len(dur) == 0 {
 				coqOps = append(coqOps, fmt.Sprintf("Advance %s %s", hx.CoqN(uint64(o.Sr)), hx.CoqZ(o.T)))
 			} else {
 				coqOps = append(coqOps, fmt.Sprintf("AdvanceSet %s %s %s", hx.CoqN(uint64(o.Sr)), hx.CoqZ(o.T), hx.CoqList(dur, "nat * bytes * Z")))
@@ -664,8 +702,12 @@ func genOpCases(tier string, r *hx.Rand) []*hx.Case {
 		for _, raw := range g.ops {
 			var o opJ
 			json.Unmarshal(raw, &o)
-			if o.Op == "adv" && o.Sr >= nsr {
+			if (o.Op == "adv" || o.Op == "advp") && o.Sr >= nsr {
 				continue
+			}
+			if o.Op == "advp" { // the operator drains every advance
+				o.Op, o.K = "adv", 0
+				raw = hx.Op(o)
 			}
 			ops = append(ops, raw)
 		}
